@@ -12,7 +12,9 @@ ID = "C05"
 LEVEL = "exploration"
 EXHAUSTIVE = True
 RULE = ("all layouts of 1..3 fields over the full field alphabet (BOOLEAN:1, BOOLEAN:8, UNSIGNED8:k and INTEGER8:k for "
-        "k=1..8, every 16..64-bit integer type, REAL32, REAL64 at full length) with total <= 64 bits, all layouts of 4..N "
+        "k=1..8, every 16..64-bit integer type, REAL32, REAL64 at full length, eight wider integer objects mapped with fewer "
+        "bits than they have: INTEGER32:24, UNSIGNED16:8, UNSIGNED32:16, INTEGER16:12, UNSIGNED64:40, INTEGER64:56, UNSIGNED24:16, "
+        "INTEGER40:8) with total <= 64 bits, all layouts of 4..N "
         "fields over the reduced alphabet {BOOLEAN:1, UNSIGNED8:4, INTEGER8:3, UNSIGNED8:8, INTEGER16}; per field every "
         "value for length <= 8 (boundary set above / in 3+-field layouts), three initial frame contents; each evaluation "
         "reads the field and writes it, comparing the whole frame; plus two-write sequences on neighbouring fields; every "
@@ -34,6 +36,9 @@ TYPES["REAL32"] = (32, None)
 TYPES["REAL64"] = (64, None)
 FULL = [("BOOLEAN", 1), ("BOOLEAN", 8)] + [("UNSIGNED8", k) for k in range(1, 9)] + [("INTEGER8", k) for k in range(1, 9)] + \
        [(n, w) for n, (w, sg) in TYPES.items() if w > 8]
+# objects mapped with fewer bits than they have (whole bytes and not)
+FULL += [("INTEGER32", 24), ("UNSIGNED16", 8), ("UNSIGNED32", 16), ("INTEGER16", 12), ("UNSIGNED64", 40), ("INTEGER64", 56),
+         ("UNSIGNED24", 16), ("INTEGER40", 8)]
 REDUCED = [("BOOLEAN", 1), ("UNSIGNED8", 4), ("INTEGER8", 3), ("UNSIGNED8", 8), ("INTEGER16", 16)]
 INITS = (0x00, 0xFF, 0xA5)
 COBS = (None, 0x185, 0x6A5, 0x18FF0685, 0x7FF, 0x10000105, 0x205, 0x101, 0x57F, 0x1FFFFFFF, 0x080)
@@ -59,6 +64,8 @@ def cases(tier, seed):
     for p in range(len(PRIORS)):
         for a in range(len(FULL)):
             out.append({"part": "remap", "prior": p, "first": a, "depth": 2 if tier == "quick" else 3})
+    for d in range(4):
+        out.append({"part": "failed-read", "dev": d})
     if tier == "thorough":
         for a in range(len(FULL)):
             for b in range(len(FULL)):
@@ -154,8 +161,10 @@ def sgn(name):
     return "float" if sg is None else ("signed" if sg else "unsigned")
 
 
-def eval_layout(layout, st, case, allvals, seq=True, prior=None):
+def eval_layout(layout, st, case, allvals, seq=True, prior=None, prebuilt=None):
     from canopen.pdo.base import PdoMap
+    if prebuilt is not None:
+        return _check_map(prebuilt[0], prebuilt[1], layout, st, case, allvals, seq, None)
     node, m0, idx = node_and_map()
     # a fresh map object per evaluation (self-contained); histories on one object are the explicit "remap" part
     m = PdoMap(m0.pdo_node, m0.com_record, m0.map_array)
@@ -170,11 +179,15 @@ def eval_layout(layout, st, case, allvals, seq=True, prior=None):
         m.data[:] = b"\xff" * len(m.data)
         m.clear()
     vars_ = []
+    for name, length in layout:
+        vars_.append(m.add_variable(idx[name], 0, length))
+    return _check_map(m, vars_, layout, st, case, allvals, seq, prior)
+
+
+def _check_map(m, vars_, layout, st, case, allvals, seq, prior):
     off = 0
     offs = []
     for name, length in layout:
-        v = m.add_variable(idx[name], 0, length)
-        vars_.append(v)
         offs.append(off)
         off += length
     total = off
@@ -291,7 +304,77 @@ def eval_layout(layout, st, case, allvals, seq=True, prior=None):
     st.outcome("layout ok")
 
 
+def run_failed_read(case, st):
+    """PdoMap.read() over SDO fails at mapping entry k (abort / no answer) on a map that held another layout before: what
+    is left must be a self-consistent map (frame length = ceil(sum of lengths / 8), offsets consecutive) whose variables
+    occupy exactly their bits."""
+    import canopen
+    _, _, idx = node_and_map()
+    name_of = {v: k for k, v in idx.items()}
+    dev_layouts = [[("UNSIGNED8", 3), ("INTEGER16", 16), ("UNSIGNED8", 5), ("BOOLEAN", 1), ("UNSIGNED32", 32)],
+                   [("UNSIGNED8", 8)] * 8, [("INTEGER8", 4), ("INTEGER8", 4), ("UNSIGNED16", 16), ("UNSIGNED8", 1)],
+                   [("UNSIGNED64", 64)]]
+    priors = [None, [("UNSIGNED64", 64)], [("BOOLEAN", 1)], [("UNSIGNED8", 8), ("UNSIGNED16", 16), ("UNSIGNED8", 8)]]
+    dl = dev_layouts[case["dev"]]
+    for pi, prior in enumerate(priors):
+        for k_fail in range(1, len(dl) + 2):
+            for exc_kind in ("abort", "timeout"):
+                import canopen.objectdictionary as odm
+                node = canopen.RemoteNode(3, node_and_map()[0].object_dictionary)
+                canopen.Network().add_node(node)          # read() subscribes the map
+                m = node.tpdo[1]
+                if prior:
+                    for nm, ln in prior:
+                        m.add_variable(idx[nm], 0, ln)
+                    m.data[:] = b"\xff" * len(m.data)
+                store = {(0x1800, 0): b"\x02", (0x1800, 1): struct.pack("<L", 0x185), (0x1800, 2): b"\xff", (0x1A00, 0): bytes([len(dl)])}
+                for j, (nm, ln) in enumerate(dl):
+                    store[(0x1A00, j + 1)] = struct.pack("<L", idx[nm] << 16 | ln)
+                armed = {"on": True}
+
+                def upload(i, s_, _store=store, _k=k_fail, _armed=armed, _e=exc_kind):
+                    if _armed["on"] and i == 0x1A00 and s_ == _k:
+                        _armed["on"] = False
+                        raise canopen.SdoAbortedError(0x08000022) if _e == "abort" else canopen.SdoCommunicationError("No SDO response received")
+                    return _store[(i, s_)]
+                node.sdo.upload = upload
+                st.evaluations += 1
+                st.nontrivial_n += 1
+                rc = dict(case, prior=pi, k_fail=k_fail, exc=exc_kind)
+                failed = False
+                try:
+                    m.read()
+                except (canopen.SdoAbortedError, canopen.SdoCommunicationError):
+                    failed = True
+                except Exception as e:  # noqa: BLE001
+                    st.violation(f"C05:failed-read:raises:{type(e).__name__}", rc, "SDO error or success", repr(e)[:100])
+                    continue
+                if failed != (k_fail <= len(dl)):
+                    st.violation("C05:failed-read:error-swallowed", rc, "the SDO error reaches the caller", f"failed={failed}")
+                    continue
+                actual = [(name_of.get(v.od.index, "?"), v.length) for v in m.map]
+                if m.length != sum(ln for _, ln in actual):
+                    st.violation("C05:failed-read:length-attribute", rc, sum(ln for _, ln in actual), m.length)
+                    continue
+                n0 = len(st.violations)
+                if actual:
+                    eval_layout(actual, st, dict(rc, after_failed_read=True), allvals=False, prebuilt=(m, list(m.map)))
+                # (an empty map has no variables: the statement does not rule on the stale buffer it keeps)
+                if len(st.violations) == n0:
+                    st.outcome("failed-read consistent")
+
+
 def run_case(case, st):
+    if case.get("part") == "failed-read" and "layout" not in case:
+        return run_failed_read(case, st)
+    if case.get("part") == "failed-read":
+        # replay of one configuration
+        sub = dict(case)
+        sub.pop("layout", None)
+        sub.pop("after_failed_read", None)
+        for k_ in ("field", "init", "v", "seq", "prior_layout"):
+            sub.pop(k_, None)
+        return run_failed_read(sub, st)
     if "layout" in case:
         eval_layout([tuple(f) for f in case["layout"]], st, {k: v for k, v in case.items() if k not in
                                                              ("layout", "field", "init", "v", "seq", "prior_layout")}, True,
@@ -345,5 +428,5 @@ def run_case(case, st):
 
 
 def finish(st, tier):
-    if st.counters.get("layouts", 0) < 20953 and not st.violations:
+    if st.counters.get("layouts", 0) < 30000 and not st.violations:
         raise simenv.HarnessError("fewer layouts than the stated enumeration")
